@@ -178,6 +178,7 @@ func escapeStylePairs(c *Case, st *Stats) string {
 			continue
 		}
 		var texts, outcomes []string
+		dotRaw := ""
 		prefix := gen.RenderSteps(append([]gen.Step(nil), c.AST.Steps[:i]...)).Text
 		rest := gen.Render(&gen.Path{Root: gen.RootOmitted, Steps: c.AST.Steps[i+1:]}, gen.Canon).Text
 		if len(c.AST.Steps[i+1:]) > 0 && c.AST.Steps[i+1].Kind == gen.KName && c.AST.Steps[i+1].Not == gen.NDot && !c.AST.Steps[i+1].Rec {
@@ -189,9 +190,20 @@ func escapeStylePairs(c *Case, st *Stats) string {
 		sels := []string{gen.QuoteName(s.Key, gen.NSQ, 0), gen.QuoteName(s.Key, gen.NSQ, 3), gen.QuoteName(s.Key, gen.NDQ, 3)}
 		if strings.ContainsRune(s.Key, 0xfffd) {
 			sels = append(sels, gen.QuoteNameSurrogateAll(s.Key, gen.NSQ), gen.QuoteNameSurrogateAll(s.Key, gen.NDQ))
+			// a byte that is not UTF-8 is read as U+FFFD wherever it stands: quoted, or in a dot name
+			sels = append(sels, strings.ReplaceAll(gen.QuoteName(s.Key, gen.NSQ, 0), "\ufffd", "\xff"), strings.ReplaceAll(gen.QuoteName(s.Key, gen.NDQ, 0), "\ufffd", "\xff"))
+			if gen.DotLegal(s.Key) && prefix != "" {
+				dotRaw = prefix + "." + strings.ReplaceAll(gen.DotName(s.Key), "\ufffd", "\xff") + rest
+			}
 		}
+		all := []string{}
 		for _, sel := range sels {
-			text := prefix + "[" + sel + "]" + rest
+			all = append(all, prefix+"["+sel+"]"+rest)
+		}
+		if dotRaw != "" {
+			all = append(all, dotRaw)
+		}
+		for _, text := range all {
 			lib := evalLibrary(&Case{Path: text, Funcs: true}, c.Document(), false)
 			st.Eval(1)
 			texts = append(texts, text)
